@@ -38,6 +38,73 @@ def configs(tier):
     return cfgs
 
 
+def cx_configs(tier):
+    lim_g = ("-fconstexpr-ops-limit=4000000000", "-fconstexpr-loop-limit=100000000")
+    lim_c = ("-fconstexpr-steps=2000000000",)
+    if tier == "quick":
+        return [build.Cfg("g++", "20", "O0", extra=lim_g), build.Cfg("clang++", "20", "O0", extra=lim_c)]
+    return [build.Cfg("g++", "20", "O0", extra=lim_g), build.Cfg("g++", "23", "plain", extra=lim_g),
+            build.Cfg("clang++", "20", "O0", extra=lim_c), build.Cfg("clang++", "23", "plain", extra=lim_c),
+            build.Cfg("g++", "20", "O0", defs=("SBEPP_HAS_RANGES=0",), extra=lim_g)]
+
+
+def cx_expected_cells(maxn):
+    total = 0
+    for n in range(maxn + 1):
+        per = 4 + 3  # strlen family + fill
+        for L in range(n + 1):
+            nonul, every = 2 ** L, 3 ** L
+            per += 3 * nonul + 3 * every + 2 * nonul + 4 * every + 3
+        total += 3 ** n * per
+    return total
+
+
+def cx_leg(rep):
+    """constant-evaluation leg (rt/c14_cx_driver.cpp): the same calls in forced constant expressions"""
+    maxn = 3 if rep.tier == "quick" else 4
+    src = C.read_text(os.path.join(C.RT, "c14_cx_driver.cpp"))
+    exp = cx_expected_cells(maxn)
+
+    def one(cfg):
+        c = build.Cfg(cfg.cxx, cfg.std, cfg.mode, cfg.defs + ("C14_CXN=%d" % maxn,), cfg.extra)
+        ok, exe, out = build.compile_driver(src, c, name="c14cx", timeout=2400)
+        if not ok:
+            return cfg, None, out
+        rc, o, _, to = C.run([exe], timeout=600, env=build.drv_env())
+        return cfg, (rc, to), o.decode(errors="replace")
+
+    for cfg, st, out in C.pmap(one, cx_configs(rep.tier)):
+        tag = "%s/constexpr" % cfg
+        if st is None:
+            first = next((l for l in out.splitlines() if "error" in l), out[-300:])
+            rep.violation("not-a-constant-expression" if "constant expression" in out or "constexpr" in first else "compile-error",
+                          "static_array_ref/constant-evaluation", "%s: the constant-evaluation driver does not compile: %s" % (tag, first[:400]),
+                          {"config": str(cfg), "output": out[-4000:]})
+            continue
+        rc, to = st
+        if to:
+            rep.inconc("constexpr driver timeout under " + tag)
+            continue
+        for mm in re.finditer(r"^MISMATCH op=(\S+) (.*)$", out, re.M):
+            rep.violation("value-mismatch", "static_array_ref::%s/constant-evaluation" % mm.group(1).split("/")[0], "%s: %s" % (tag, mm.group(0)[:700]),
+                          {"config": str(cfg), "case": mm.group(0), "driver": "rt/c14_cx_driver.cpp",
+                           "layout": "guard 6e | N array bytes | tail 78 79 00 7a"})
+        m = re.search(r"CXTOTAL cells=(\d+) mismatches=(\d+)", out)
+        if m is None:
+            rep.violation("abort", "c14_cx_driver", "%s: driver died rc=%s: %s" % (tag, rc, out[-800:]), {"config": str(cfg)})
+            continue
+        if int(m.group(1)) != exp:
+            rep.inconc("%s: %s constant-evaluated cells observed, the scope has %d" % (tag, m.group(1), exp))
+        rep.evaluation(int(m.group(1)))
+        rep.count("constexpr_cells", int(m.group(1)))
+        for om in re.finditer(r"^CXOP (\S+) (\d+)$", out, re.M):
+            if int(om.group(2)) > 0:
+                rep.nontrivial("constexpr", om.group(1))
+    rep.cov["constexpr_configs"] = [str(c) for c in cx_configs(rep.tier)]
+    rep.cov["constexpr_max_N"] = maxn
+    rep.cov["constexpr_scope_cells_per_config"] = exp
+
+
 def main():
     rep = Report("C14", "exploration")
     maxn = 3 if rep.tier == "quick" else 6
@@ -60,7 +127,21 @@ def main():
         rc, o, _, to = C.run([exe], timeout=1200, env=build.drv_env())
         return cfg, (rc, to), o.decode(errors="replace")
 
-    results = C.pmap(one, cfgs)
+    big_src = C.read_text(os.path.join(C.RT, "c14_big_driver.cpp"))
+    big_rounds = 6 if rep.tier == "quick" else 60
+
+    def one_big(cfg):
+        c = build.Cfg(cfg.cxx, cfg.std, cfg.mode, cfg.defs + ("C14_SEED=%d" % rep.seed, "C14_ROUNDS=%d" % big_rounds), cfg.extra)
+        ok, exe, out = build.compile_driver(big_src, c, name="c14big")
+        if not ok:
+            return cfg, None, out
+        rc, o, _, to = C.run([exe], timeout=1200, env=build.drv_env())
+        return cfg, (rc, to), o.decode(errors="replace")
+
+    both = C.pmap(lambda job: (job[0], job[0] == "big" and one_big(job[1]) or one(job[1])),
+                  [("small", c) for c in cfgs] + [("big", c) for c in cfgs])
+    results = [r for k, r in both if k == "small"]
+    big_results = [r for k, r in both if k == "big"]
     ops_seen = set()
     for cfg, st, out in results:
         if st is None:
@@ -99,11 +180,54 @@ def main():
                         rep.nontrivial(om.group(1), n)
             for sm in re.finditer(r"^SAMPLE (.*)$", out, re.M):
                 rep.sample({"config": str(cfg), "cell": sm.group(1)})
+    # second leg: lengths and byte values beyond the exhaustive scope (sampled, seeded)
+    big_ops = set()
+    for cfg, st, out in big_results:
+        if st is None:
+            raise C.HarnessError("C14 big-N driver does not compile under %s:\n%s" % (cfg, out[-3000:]))
+        rc, to = st
+        if to:
+            rep.inconc("big-N driver timeout under %s" % cfg)
+            continue
+        m = re.search(r"TOTAL cells=(\d+) strlen_cells=(\d+) mismatches=(\d+) asserts=(\d+)", out)
+        for mm in re.finditer(r"^MISMATCH op=(\S+) (.*)$", out, re.M):
+            klass = "spurious-assert" if "asserted=1" in mm.group(2) else "value-mismatch"
+            rep.violation(klass, "static_array_ref::" + mm.group(1), "%s: %s" % (cfg, mm.group(0)[:600]),
+                          {"config": str(cfg), "case": mm.group(0)[:2000], "driver": "rt/c14_big_driver.cpp", "seed": rep.seed})
+        for msg, f, line in build.ubsan_reports(out):
+            rep.violation("ubsan:" + msg, f, "%s: %s" % (cfg, line), {"config": str(cfg), "report": line})
+        if "AddressSanitizer" in out:
+            first = re.search(r"ERROR: AddressSanitizer: (\S+)", out)
+            rep.violation("asan:" + (first.group(1) if first else "?"), "static_array_ref",
+                          "%s: %s" % (cfg, out[-1500:]), {"config": str(cfg), "output": out[-4000:]})
+        elif m is None:
+            if rc != 0:
+                rep.violation("abort", "c14_big_driver", "%s: driver died rc=%s: %s" % (cfg, rc, out[-800:]),
+                              {"config": str(cfg), "output": out[-4000:]})
+            else:
+                rep.inconc("%s: big-N driver printed no total" % cfg)
+        if m:
+            if len(re.findall(r"^DONE ", out, re.M)) != 19 * 3 + 6:
+                rep.inconc("%s: big-N driver finished %d of %d instantiations" % (cfg, len(re.findall(r"^DONE ", out, re.M)), 63))
+            rep.evaluation(int(m.group(1)) + int(m.group(2)))
+            rep.count("bigN_cells_compared", int(m.group(1)))
+            rep.count("bigN_strlen_cells", int(m.group(2)))
+            for om in re.finditer(r"^OP (\S+) (\d+)$", out, re.M):
+                if int(om.group(2)) > 0:
+                    big_ops.add(om.group(1))
+                    rep.nontrivial("bigN", om.group(1))
+            for sm in list(re.finditer(r"^SAMPLE (.*)$", out, re.M))[:2]:
+                rep.sample({"config": str(cfg), "bigN_cell": sm.group(1)})
+    cx_leg(rep)
+    rep.cov["bigN_lengths"] = [7, 8, 9, 15, 16, 17, 31, 32, 33, 63, 64, 65, 127, 128, 129, 255, 256, 257, 1000]
+    rep.cov["bigN_overloads_seen"] = sorted(big_ops)
+    rep.cov["byte_value_leg"] = "N=1: all 256 values; N=2: all 65536 contents for strlen/strlen_r, every fifth as assignment input"
     rep.cov["configs"] = [str(c) for c in cfgs]
     rep.cov["overloads_seen"] = sorted(ops_seen)
     rep.cov["max_N"] = maxn
     rep.cov["exhaustive"] = True
     rep.cov["scope_cells_per_config"] = exp_cells + exp_strlen
     rep.assumptions += ["inputs satisfy the documented preconditions (length <= N, non-null pointer)",
-                        "the alphabet {NUL,a,b} is representative of all byte values for copy/pad logic"]
+                        "the alphabet {NUL,a,b} is representative of all byte values for copy/pad logic inside the exhaustive scope; "
+                        "the sampled second leg uses all byte values and lengths up to 1000 but is not exhaustive"]
     return rep.finish()
